@@ -107,6 +107,15 @@ func runC27(c *core.Ctx) {
 		}
 		c.Floor("C27/chunk-limits-positive", 3)
 	}
+	// the eviction step actually used is the configured (positive) one: a step that can be 0 evicts nothing and the chunk refuses every item
+	if fn := anchorM(c, pkg, "immunityChunk", "evictItemsNoLock"); fn != nil {
+		leaves := map[string]core.Interval{"recv.config.numItemsToPreemptivelyEvict": {Lo: 1, Hi: math.MaxUint32}}
+		for i, in := range callsMatching(fn, pkg, "immunityChunk", "removeOldestNoLock") {
+			iv := core.EvalInterval(core.CallOf(in).Args[1], leaves, math.MaxUint32)
+			c.Check(iv.Lo >= 1, "C27/chunk-limits-positive", fmt.Sprintf("immunityChunk.evictItemsNoLock/step#%d", i), in.Pos(),
+				"eviction removes at least the configured (≥1) number of items per step", "the number of items to evict per step ("+core.ExprKey(core.CallOf(in).Args[1])+") can be 0 although the configured value is ≥ 1")
+		}
+	}
 	// ---- S2
 	if fn := anchorM(c, pkg, "immunityChunk", "removeOldestNoLock"); fn != nil {
 		rms := callsMatching(fn, pkg, "immunityChunk", "removeNoLock")
